@@ -3,6 +3,7 @@ package checks
 import (
 	"fmt"
 	"math"
+	"math/rand/v2"
 	"strings"
 
 	"github.com/arloliu/go-secs/v2/hsms"
@@ -22,7 +23,7 @@ func init() {
 		Level: "exploration",
 		Rule: "case i (pure function of seed,i) = one error-free item tree: the eight C01 families (leaf x count 0/1/2/small; leaves at the 255/256/65535/65536 boundaries; random trees; list chains of every depth 1..65; " +
 			"flat lists; lists of 254..257 children) plus every numeric edge value in three shapes (all in one item / one per item / single value), every empty item, lists holding EmptyItem children, the EmptyItem itself; " +
-			"each tree is checked as built by randomly chosen public-constructor argument shapes AND as returned by secs2.Decode of its reference encoding (different internal storage). " +
+			"each tree is checked as built by randomly chosen public-constructor argument shapes AND as returned by secs2.Decode of its reference encoding (different internal storage) AND as decoded from an equivalent non-canonical encoding (TRUE as 0xFF/0x02/0x80/..., length fields wider than minimal). " +
 			"oracle 1 (differential, stated by the property): sml.Encode(item), sml.NewEncoder().Encode(item), AppendEncode == item.ToSML() byte for byte. " +
 			"oracle 2 (parse-back): every numeric / boolean / binary leaf's rendering by either renderer, wrapped as 'S1F1 W\\n<rendering>\\n.', parsed by sml.Parse and sml.ParseStrict, must give one message whose body " +
 			"equals the model leaf through every public accessor (a NaN must come back as a NaN; F4 at float32 precision). distinct = hash(reference encoding, recipe, variant); every case is non-trivial",
@@ -34,7 +35,7 @@ func init() {
 			return []fw.Phase{{Name: "plain", Shards: 16, Timeout: tierDur(tier, 6, 40)}}
 		},
 		Worker:         c15Worker,
-		RequiredEvents: []string{"trees_compared", "decoded_trees_compared", "leaves_parsed_back", "empty_item_child_trees", "numeric_edge_trees"},
+		RequiredEvents: []string{"trees_compared", "decoded_trees_compared", "noncanonical_decoded_trees_compared", "leaves_parsed_back", "empty_item_child_trees", "numeric_edge_trees"},
 	})
 }
 
@@ -99,7 +100,58 @@ func (st *c15State) one(i int64) {
 			env.Event("decoded_trees_compared", 1)
 			st.compare(dec, node, cs)
 		}
+		// the same value as another implementation may have put it on the wire: TRUE as any
+		// non-zero byte, length fields wider than minimal (an item that retains such bytes is
+		// still an error-free item, and both renderers must agree on it)
+		wire, nonCanon := c15NonCanonical(env.RandAt("noncanon", i), node, nil)
+		if nonCanon {
+			if dec, err := secs2.Decode(wire); err == nil && dec.Error() == nil {
+				cs.Variant = "decoded-noncanonical"
+				env.Eval(fw.Hash64(wire, []byte("decoded-noncanonical")), true)
+				env.Event("noncanonical_decoded_trees_compared", 1)
+				st.compare(dec, node, cs)
+			}
+		}
 	}
+}
+
+// c15NonCanonical appends an E5 encoding of n that differs from the canonical one without changing
+// the value: every TRUE byte of a Boolean becomes some other non-zero byte, and length fields are
+// (randomly) one or two bytes wider than needed. Reports whether anything differs.
+func c15NonCanonical(r *rand.Rand, n *e5.Node, dst []byte) ([]byte, bool) {
+	l := n.PayloadLen()
+	nlb := e5.MinLenBytes(l)
+	wide := nlb
+	if r.IntN(3) == 0 {
+		wide = nlb + 1 + r.IntN(3-nlb+1)
+		wide = min(wide, 3)
+	}
+	changed := wide != nlb
+	dst = append(dst, n.FC<<2|byte(wide))
+	for k := wide - 1; k >= 0; k-- {
+		dst = append(dst, byte(l>>(8*k)))
+	}
+	switch n.FC {
+	case e5.List:
+		for _, kid := range n.Kids {
+			var c bool
+			dst, c = c15NonCanonical(r, kid, dst)
+			changed = changed || c
+		}
+	case e5.Boolean:
+		trues := []byte{0xFF, 0x02, 0x80, 0x7F, 0x10}
+		for _, b := range n.Bytes {
+			if b != 0 && r.IntN(4) != 0 {
+				b = trues[r.IntN(len(trues))]
+				changed = true
+			}
+			dst = append(dst, b)
+		}
+	default:
+		dst = append(dst, n.Encode(nil)[1+nlb:]...)
+	}
+
+	return dst, changed
 }
 
 func (st *c15State) violate(key, msg string, cs any) {
